@@ -57,8 +57,15 @@ impl Helper {
                 .await
                 .expect("Failed to read from storage")
             {
-                let block =
-                    bincode::deserialize(&bytes).expect("Failed to deserialize our own block");
+                // The store is shared with the mempool: the requested digest may hold something
+                // that is not a block (e.g. a batch). Ignore such requests instead of crashing.
+                let block = match bincode::deserialize(&bytes) {
+                    Ok(block) => block,
+                    Err(e) => {
+                        warn!("Received sync request for a digest that is not a block: {}", e);
+                        continue;
+                    }
+                };
                 let message = bincode::serialize(&ConsensusMessage::Propose(block))
                     .expect("Failed to serialize block");
                 self.network.send(address, Bytes::from(message)).await;
